@@ -128,6 +128,14 @@ def random_user_classes(r, n):
     init = None
     if r.random() < 0.4:
       init = list(dict((f"{r.choice('ic')}{r.randrange(3)}", "int") for _ in range(r.choice([0, 1, 2]))).items())
+    if i and r.random() < 0.4:
+      # make the option order observable: a base defines op, this class overrides the reflected dunder
+      base = bases[0] if bases else r.randrange(i)
+      if not bases:
+        bases = [base]
+      op = 2 * r.choice([0, 0, 1, 2, 9, 10])
+      out[base]["dunders"][op] = "all"
+      dn[op + 1] = "all"
     out.append(dict(name=f"U{i}", bases=bases, dunders=dn, cattrs=cattrs, init=init))
   return out
 
